@@ -1,8 +1,10 @@
 # C12: layered filesystem - top layer wins, writes stay on top, read-after-write, per-game configuration.
 from common import PropertyCheck, Case
 import fsgen
+import typedfs
 
 
+@typedfs.hook
 class C12(PropertyCheck):
     pid = "C12"
     source_tables = ["FsConfig", "LZ"]   # tables / constants regenerated from /repo's source (gen/srctables.py)
